@@ -14,7 +14,8 @@
       `QL` in the order of the inductor dictionary (before the fix: positions of the combined
       alphabetic source map — wrong columns for interleaved names / non-alphabetic inductors);
     * `Λ = diag(−C…, L…)` follows the dictionaries;
-    * `_row_for_potential` returns a zero row for an unknown node id.
+    * `_row_for_potential` returns a zero row for the reference node and raises `KeyError` for
+      an unknown node id (since fix f9f472e; before: a zero row for every unmapped id).
   The two `numpy.linalg.inv` calls are *arguments* (certificates `Ainv`, `S`); the theorems
   assume `Ã·Ainv = 1` and `(DQᵀ Ainv DQ)·S = 1`, the driver checks both exactly.
   `.real` is the parameter `re`.  `scipy.signal.lsim` is the parameter `lsim`.
@@ -201,29 +202,36 @@ def NSSM.nStates (m : NSSM L K) : Nat := m.mats.A.length          -- `A.shape[0]
 /-- `B.shape[1]`; the model keeps the column count explicitly -/
 def NSSM.nInputs (m : NSSM L K) : Nat := ssNInputs m.net m.lvals
 
-/-- `_row_for_potential` (lines 65-68): the row of the node's index, a ZERO row for an id that
-is not in the node map (the reference node — and any unknown id) -/
-def NSSM.rowForPotential (m : NSSM L K) (node : L) (M : List (List K)) (width : Nat) : List K :=
+/-- `_row_for_potential` (after fix f9f472e): the row of the node's index; a ZERO row for the
+reference node; `KeyError` for any other id that is not in the node map (before the fix: a zero
+row for every unmapped id) -/
+def NSSM.rowForPotential (m : NSSM L K) (node : L) (M : List (List K)) (width : Nat) : Except Err (List K) :=
   match idxOf? node m.net.nodes with
-  | some k => M.getD k []
-  | none => Mx.zeroVec width
+  | some k => .ok (M.getD k [])
+  | none => if node ≠ m.net.zero then .error .keyError else .ok (Mx.zeroVec width)
 
-def NSSM.cRowPotential (m : NSSM L K) (node : L) : List K :=
+def NSSM.cRowPotential (m : NSSM L K) (node : L) : Except Err (List K) :=
   m.rowForPotential node m.mats.C m.nStates
-def NSSM.dRowPotential (m : NSSM L K) (node : L) : List K :=
+def NSSM.dRowPotential (m : NSSM L K) (node : L) : Except Err (List K) :=
   m.rowForPotential node m.mats.D m.nInputs
 
 /-- `c_row_voltage` (lines 78-82) -/
 def NSSM.cRowVoltage (m : NSSM L K) (id : String) : Except Err (List K) :=
   match m.net.get? id with
   | none => .error .keyError
-  | some b => .ok (Mx.vecSub (m.cRowPotential b.n1) (m.cRowPotential b.n2))
+  | some b => do
+    let p ← m.cRowPotential b.n1
+    let q ← m.cRowPotential b.n2
+    pure (Mx.vecSub p q)
 
 /-- `d_row_voltage` (lines 101-105) -/
 def NSSM.dRowVoltage (m : NSSM L K) (id : String) : Except Err (List K) :=
   match m.net.get? id with
   | none => .error .keyError
-  | some b => .ok (Mx.vecSub (m.dRowPotential b.n1) (m.dRowPotential b.n2))
+  | some b => do
+    let p ← m.dRowPotential b.n1
+    let q ← m.dRowPotential b.n2
+    pure (Mx.vecSub p q)
 
 /-- `x / branch.element.Z` with `Z = inf` for a zero admittance -/
 def divByZ (e : Elem K) (row : List K) : List K :=
@@ -244,7 +252,10 @@ def NSSM.cRowCurrent (m : NSSM L K) (id : String) : Except Err (List K) :=
       if m.net.csIds.contains id then .ok (Mx.zeroVec m.nStates)
       else match m.net.get? id with
         | none => .error .keyError
-        | some b => .ok (divByZ b.e (Mx.vecSub (m.cRowPotential b.n1) (m.cRowPotential b.n2)))
+        | some b => do
+          let p ← m.cRowPotential b.n1
+          let q ← m.cRowPotential b.n2
+          pure (divByZ b.e (Mx.vecSub p q))
 
 /-- `d_row_current` (lines 107-120) -/
 def NSSM.dRowCurrent (m : NSSM L K) (id : String) : Except Err (List K) :=
@@ -261,7 +272,10 @@ def NSSM.dRowCurrent (m : NSSM L K) (id : String) : Except Err (List K) :=
       | none =>
         match m.net.get? id with
         | none => .error .keyError
-        | some b => .ok (divByZ b.e (Mx.vecSub (m.dRowPotential b.n1) (m.dRowPotential b.n2)))
+        | some b => do
+          let p ← m.dRowPotential b.n1
+          let q ← m.dRowPotential b.n2
+          pure (divByZ b.e (Mx.vecSub p q))
 
 /-- `sources` (lines 122-126): current sources, then the voltage sources that are not
 inductors — BLOCK order -/
@@ -297,14 +311,16 @@ def reactiveValues (comps : List (String × String × K)) (ty : String) : ValDic
 
 /-- stacked output rows: potentials, then voltages, then currents (lines 13-27) -/
 def NSSM.stackC (m : NSSM L K) (pots : List L) (volts curs : List String) : Except Err (List (List K)) := do
+  let p ← pots.mapM m.cRowPotential
   let v ← volts.mapM m.cRowVoltage
   let c ← curs.mapM m.cRowCurrent
-  pure (pots.map m.cRowPotential ++ v ++ c)
+  pure (p ++ v ++ c)
 
 def NSSM.stackD (m : NSSM L K) (pots : List L) (volts curs : List String) : Except Err (List (List K)) := do
+  let p ← pots.mapM m.dRowPotential
   let v ← volts.mapM m.dRowVoltage
   let c ← curs.mapM m.dRowCurrent
-  pure (pots.map m.dRowPotential ++ v ++ c)
+  pure (p ++ v ++ c)
 
 /-- `state_space_model(circuit, potential_nodes, voltage_ids, current_ids)` on the already
 translated network: all `C` rows are built before any `D` row -/
